@@ -12,6 +12,7 @@ import Hpl.Spec.Eval
 import Hpl.Spec.Shapes
 import Hpl.Model.Rewrite.Split
 import Hpl.Model.Rewrite.Refactor
+import Hpl.Model.Rewrite.Simplify
 /-! Line-protocol driver: one S-expression request per line on stdin, one canonical answer per line on stdout. -/
 open Hpl
 open Hpl.Codec
@@ -184,6 +185,12 @@ def handle (req : Sexp) : Sexp :=
     match xs.mapM decExpr with
     | some es => okS (es.map (fun e => .list [Sexp.ofBool (indivisible e), Sexp.ofBool (e.ty &&& T.BOOL != 0), .list (e.freeVars.map Sexp.str)]))
     | none => errS "protocol" "shapes"
+  | .list [.atom "simplify", x] =>
+    match decExpr x with
+    | some e => encM (fun r => [encExpr r]) (simplifyExpr e)
+    | none => match decPred x with
+      | some p => encM (fun r => [encPred r]) (simplifyPred p)
+      | none => errS "protocol" "simplify"
   | .list [.atom "ping"] => okS [.atom "pong"]
   | _ => errS "protocol" "unknown request"
 
